@@ -848,6 +848,11 @@ def doAction (tid? : Option Nat) (a : EventAction) (options : Vars) : M Unit := 
       match options.get k with
       | none => throw .outputsUnsatisfied
       | some v => cut := Vars.set cut k v
+    -- what the action needs for itself (error code and message, the target of a back) is not an output and stays
+    for k in ["ecode", "message", "to"] do
+      match options.get k with
+      | some v => cut := Vars.set cut k v
+      | none => pure ()
     opts := cut
   let _ := t
   modify fun w => { w with cur := tid, vars := Vars.setAll [] opts, action := true }
